@@ -429,6 +429,15 @@ def run(ctx, prop):
     for (src, _), t in zip(hist, traces):
         t['src'] = src
     if prop in ('C11', 'C09'):
+        # traits learnt from servers (not in the cell's trait list) that manifests and
+        # allocations require: fail-overs must keep what is placed on them
+        dscn = mc.SCENARIOS['dup']
+        dh = [mc.gen_servers(dscn, rng, rng.choice([4, 6])) if k % 2 else mc.gen_allocs(dscn, rng, 3)
+              for k in range(40 if ctx.quick else 500)]
+        dt = mc.record('dup', dh)
+        for t in dt:
+            t['src'] = 'dup'
+        traces += dt
         hh = [mc.gen_hetero(mc.SCENARIOS['hetero'], rng) for _ in range(60 if ctx.quick else 800)]
         ht = mc.record('hetero', hh)
         for t in ht:
